@@ -413,7 +413,7 @@ package main
 //@   nopanic
 //@   safe
 //@   assert at call store.TopicsPersistenceInterface.Delete#1 [C06] online_owner_only: (asUid != types.ZeroUid && t.owner == asUid && asUid == types.ParseUserId(msg.AsUser)) || t.cat == types.TopicCatP2P
-//@   assert at call store.TopicsPersistenceInterface.Delete#2 [C06] offline_empty_p2p: tcat == types.TopicCatP2P && len(subs) == 0
+//@   assert at call store.TopicsPersistenceInterface.Delete#2 [C06] offline_empty_p2p: hasPrefix(topic, "p2p") && len(subs) == 0
 //@   assert at call store.TopicsPersistenceInterface.Delete#4 [C06] offline_last_p2p: tcat == types.TopicCatP2P && len(subs) < 2
 //@   assert at call store.TopicsPersistenceInterface.Delete#3 [C06] offline_owner_only: sub != nil && hasO(sub.ModeGiven & sub.ModeWant) && sub.User == asUid.String() && asUid == types.ParseUserId(msg.AsUser)
 
